@@ -63,6 +63,52 @@ def run(tier, R):
         F = FS.get((cfg, mode))
         if F is not None:
             check_cfg(F, R, cfg, backend)
+    debug_assertions(R, FS.get(("simd", "release")))
+
+
+def crate_of_fn(f):
+    p = f["path"]
+    head = p.split(" as ")[0]
+    for c in ("ed25519_dalek", "x25519_dalek"):
+        if c + "::" in head or f.get("crate") == c:
+            return c
+    return None
+
+
+def debug_assertions(R, Frel):
+    """Builds with debug assertions (the default dev profile) must not panic either.  For curve25519-dalek that is C11's proof; for the two
+    protocol crates the panic edges that exist only in the checked build (debug_assert!, overflow checks) and are reachable from the
+    untrusted-input entry points are inventoried here: each must be discharged by constant reasoning or be listed as reviewed."""
+    if Frel is None:
+        return
+    FS = ctx.facts_for(R, [("simd", "checked")])
+    Fc = FS.get(("simd", "checked"))
+    if Fc is None:
+        return
+    I = lambda s: "simd-checked:%s" % s
+
+    def edges(F):
+        P = Panic(F)
+        P.reach(entries(F))
+        P.scan()
+        return P
+    Pc, Pr = edges(Fc), edges(Frel)
+    rel = {(e["fn"]["path"], e["kind"], e["detail"]) for e in Pr.edges}
+    n_fn = len([f for f in Pc.reached if crate_of_fn(Fc.fns[f] if isinstance(f, str) else f)]) if Pc.reached else 0
+    n = 0
+    for e in Pc.edges:
+        f = e["fn"]
+        if crate_of_fn(f) is None or (f["path"], e["kind"], e["detail"]) in rel:
+            continue
+        n += 1
+        inst = I("%s:%s:%s" % (short(f), e["kind"], e["detail"][:80]))
+        if e["ok"]:
+            R.ok("C15.debug_assert", inst, e["why"])
+        else:
+            R.viol("C15.debug_assert", inst, "a panic edge that exists only in builds with debug assertions is reachable from an untrusted-input entry point: %s; call path: %s" % (
+                e["detail"], Pc.call_path(f["key"])), e["loc"])
+    R.floor("C15.debug_assert", I("functions of ed25519-dalek / x25519-dalek reachable from the entry points in the checked build"), n_fn, 40)
+    R.extra.setdefault("debug_assert_scan", {})["checked_only_edges"] = n
 
 
 def check_cfg(F, R, cfg, backend):
